@@ -671,7 +671,7 @@ func (e *Engine) strConcat(st *State, a, b StrV) Value {
 	e.declareUF("sconcat", "(declare-fun sconcat (Int Int) Int)")
 	r := app(SInt, "sconcat", a.t, b.t)
 	if e.quant == 0 {
-		r = e.name("cat", r)
+		r = e.nameAlways("cat", r)
 		e.strIDs = append(e.strIDs, r)
 		e.assume(st, Eq(e.slen(r), Add(e.slen(a.t), e.slen(b.t))), "string concatenation length")
 		e.nsym++
@@ -1018,7 +1018,8 @@ func (e *Engine) substr(st *State, s, lo, hi T) Value {
 	e.declareUF("ssub", "(declare-fun ssub (Int Int Int) Int)")
 	r := app(SInt, "ssub", s, lo, hi)
 	if e.quant == 0 {
-		r = e.name("sub", r)
+		r = e.nameAlways("sub", r)
+		e.strIDs = append(e.strIDs, r)
 		e.assume(st, Eq(e.slen(r), Sub(hi, lo)), "substring length")
 		e.nsym++
 		v := fmt.Sprintf("k!%d", e.nsym)
